@@ -53,4 +53,18 @@ Section Window.
       w_loop (Z.to_nat (cmax + 2)) rows (wp_sized p) (wp_step p) (wp_label_shift p) (wp_incr p)
              cmax (w_idx_left_max cmax) (w_idx_left_init (wp_start_shift p)) (wp_size p) w_count_init.
 
+  (* Frame.iter_window_array[_items](axis=1): the window is TypeBlocks._extract_array(NULL_SLICE, key); for an EMPTY
+     column selection that function raises StopIteration inside the generator (type_blocks.py:2088,
+     resolve_dtype_iter of no blocks) -> RuntimeError for the whole iteration, whether or not the anchor would
+     have been valid (a finding: the model follows the code) *)
+  Definition has_empty_anchor (rows : list wrow) (p : wparams) : bool :=
+    let n := zlen rows in
+    existsb (fun i => a_enumerated n p i && (zlen (a_window rows p i) =? 0))
+            (zseq 0 (Z.to_nat (a_count_max n p + 1))).
+
+  Definition M_windows_frame_array_axis1 (rows : list wrow) (p : wparams) : res (list (L * list wrow)) :=
+    match M_windows rows p with
+    | Err e => Err e
+    | Ok out => if has_empty_anchor rows p then Err "RuntimeError" else Ok out
+    end.
 End Window.
